@@ -160,7 +160,11 @@ def nonint_syms(h):
     for s_ in subterms([h]):
         if z3.is_app(s_) and s_.decl().kind() == z3.Z3_OP_UNINTERPRETED:
             if s_.num_args() == 0:
-                if s_.sort().kind() == z3.Z3_ARRAY_SORT: out.add('@' + s_.decl().name())
+                if s_.sort().kind() == z3.Z3_ARRAY_SORT:
+                    rng = s_.sort()
+                    while rng.kind() == z3.Z3_ARRAY_SORT: rng = rng.range()
+                    # arrays of integers (row lengths, index tables) carry shape facts: treated like integer symbols
+                    if rng.kind() != z3.Z3_INT_SORT: out.add('@' + s_.decl().name())
                 elif s_.sort().kind() != z3.Z3_INT_SORT: out.add(s_.decl().name())
             else:
                 out.add('f:' + s_.decl().name())
